@@ -226,12 +226,25 @@ func (ex *Exec) prove(st *State, cond *Term, label string) {
 		want = append(want, in.T)
 	}
 	as := append(append([]*Term(nil), st.pc...), Not(cond))
-	r, model := ex.solver.CheckModel(as, want)
-	if r == "unknown" {
-		var by string
-		r, model, by = ex.solver.fallback(as, want, ex.fallbackBudget)
-		if by != "" {
-			ob.By = by
+	var r string
+	var model map[string]string
+	if !noSlice {
+		// cone-of-influence slice first (cached under its alpha-normalised text, fallback solvers
+		// included): unsat of the slice proves the assertion; unknown is final for this shape
+		r = ex.solver.DecideCached(st.pc, ex.fallbackBudget, Not(cond))
+		if r == "unsat" {
+			ob.Verdict = "proved"
+			return
+		}
+	}
+	if r != "unknown" {
+		r, model = ex.solver.CheckModel(as, want)
+		if r == "unknown" {
+			var by string
+			r, model, by = ex.solver.fallback(as, want, ex.fallbackBudget)
+			if by != "" {
+				ob.By = by
+			}
 		}
 	}
 	switch r {
